@@ -161,7 +161,11 @@ def check(case, ctx):
     if f == 'percentile':
         from dimarray.lib.stats import percentile
         label = "percentile(a, %r, axis=%r)" % (case["q"], axis)
-        fn = lambda: percentile(a, case["q"], axis=axis)
+        if axis == 0:
+            label = "percentile(a, %r)" % (case["q"],)
+            fn = lambda: percentile(a, case["q"])       # axis=0 is the default
+        else:
+            fn = lambda: percentile(a, case["q"], axis=axis)
     else:
         label = "a.%s(axis=%r, skipna=%r)" % (f, axis, skipna)
         if mode == 'none' and case.get("pat") in ('none', 'dense'):
